@@ -42,7 +42,7 @@ def run(run, tier, seed, replay=None):
     ndes = 250 if quick else 5000
     for k in range(ndes):
         r = core.rng(seed, "C06", "designs", k)
-        jobs.append(dict(source="design", design=D.gen_design(r, size=r.choice([1, 2, 3]), devs=[("R", 2), ("C", 2)] if k % 3 else None)))
+        jobs.append(dict(source="design", design=D.gen_design(r, size=r.choice([1, 2, 3]), devs=[("R", 2), ("C", 2)] if k % 3 else None, reconnect=True)))
     # stressed designs: single-fault mutants of valid designs (the C02 mutators) and module-name clashes at every depth.
     # Most are rejected by the implementation, which is fine here: whatever package IS returned must be well-formed.
     from . import c02 as M
